@@ -7,6 +7,8 @@
 //! coq/Model/ContStore.v (`check_case_c02`).
 #[path = "../contlib/mod.rs"]
 mod contlib;
+#[path = "../c02torn/mod.rs"]
+mod torn;
 use contlib::*;
 use ripd::*;
 use rv::*;
@@ -2596,7 +2598,7 @@ fn main() {
     res.rule = "case = history of ContinuityStore capability calls (17 capabilities, 7 append kinds, every selector / summary / stride / limit / dry_run / execute / block_on_inflight combination, 40 unknown / malformed / path-shaped thread ids, frames of 8190..100000 bytes), sidecar faults (delete all caches, torn tail, empty, stale prefix) and restarts; 16 named store states (in-flight job, backlog > max_new, all checkpointed, caches deleted / corrupt, restart, children, > 256 KiB thread) x every parameter combination of the read-only / dry-run / no-op invocations on a known id (a fault state is re-created before every call) and on `../events`; 5 thread contents x 9 (fault, restart) combinations x 42 core invocations; events.jsonl is read before and after EVERY call and at every log.* hook point inside EventLog::append; non-trivial = at least one appending call, one silent call and one fault or restart; distinct by hash of the call list; plus byte-level cases (EventLog::append alone, lines of 200..250000 bytes, file growth at the hook points compared with the BufWriter model), a second O_APPEND handle race, router-level cases (percent-encoded ids through the real axum router) and a live case (session runs, thread posts, a pipes task through the router), oracle only".into();
     let n = if a.thorough() { 1500 } else { 110 };
     let mut r = Rng::new(a.seed);
-    let mut w = CaseWriter::new(&a.out, "Model.Frames Model.Log Model.ContStore Model.LogBytes Model.NoopPlan Model.C02Decide Model.C02Cases Gen.Effects", "check_case_c02g", "model_obs_c02g", 8);
+    let mut w = CaseWriter::new(&a.out, "Model.Frames Model.Log Model.ContStore Model.LogBytes Model.NoopPlan Model.C02Decide Model.LogFile Model.C02Cases Gen.Effects", "check_case_c02g", "model_obs_c02g", 8);
     let mut distinct = Distinct::default();
     install_hook();
     let mut plan_seen: std::collections::HashSet<String> = Default::default();
@@ -2691,11 +2693,16 @@ fn main() {
     log_level_cases(&a, &mut res, base, &mut w);
     w.flush();
     let t_log = t_hist.elapsed().as_millis() as u64;
+    let t_torn0 = std::time::Instant::now();
+    torn::torn_cases(&a, &mut res, base + 3000, &mut w);
+    w.flush();
+    let t_torn = t_torn0.elapsed().as_millis() as u64;
+    let t_hist = t_hist + t_torn0.elapsed();
     router_cases(&a, &mut res, base + 1000);
     let t_router = t_hist.elapsed().as_millis() as u64 - t_log;
     live_cases(&a, &mut res, base + 2000);
     let t_live = t_hist.elapsed().as_millis() as u64 - t_log - t_router;
-    res.notes.push(format!("wall ms: histories {}, log-level {t_log}, router {t_router}, live {t_live}", t_start.elapsed().as_millis() as u64 - t_log - t_router - t_live));
+    res.notes.push(format!("wall ms: histories {}, log-level {t_log}, torn-tail restarts {t_torn}, router {t_router}, live {t_live}", t_start.elapsed().as_millis() as u64 - t_log - t_router - t_live - t_torn));
     rip_kernel::verif::set_hook(None);
     res.distinct_nontrivial = distinct.count();
     res.case_files = w.files.iter().map(|p| p.display().to_string()).collect();
